@@ -192,18 +192,35 @@ func (self *visitorUserNode) OnNull() error {
 	return nil
 }
 
+// scalarField returns the descriptor of the field a scalar JSON value belongs to: the pending member,
+// or the element of the enclosing array. It is an error if the schema wants a message, list or map there.
+func (self *visitorUserNode) scalarField() (*proto.FieldDescriptor, error) {
+	if fd := self.globalFieldDesc; fd != nil {
+		if fd.Type().IsList() || fd.Type().IsMap() || fd.Kind() == proto.MessageKind {
+			return nil, newError(meta.ErrDismatchType, fmt.Sprintf("field '%s' can't take a scalar value", fd.Name()), nil)
+		}
+		return fd, nil
+	}
+	if top := self.stk[self.sp]; top.typ == arrStkType && top.state.fieldDesc != nil {
+		if fd := top.state.fieldDesc; fd.Kind() != proto.MessageKind {
+			return fd, nil
+		}
+	}
+	return nil, newError(meta.ErrDismatchType, "unexpected scalar value", nil)
+}
+
 func (self *visitorUserNode) OnBool(v bool) error {
 	if self.inskip {
 		self.inskip = false
 		return nil
 	}
 
-	var err error
-	top := self.stk[self.sp]
-	fieldDesc := self.globalFieldDesc
-	// case PackedList(List bool), get fieldDescriptor from Stack
-	if self.globalFieldDesc == nil && top.typ == arrStkType {
-		fieldDesc = top.state.fieldDesc
+	fieldDesc, err := self.scalarField()
+	if err != nil {
+		return err
+	}
+	if fieldDesc.Kind() != proto.BoolKind {
+		return newError(meta.ErrDismatchType, "param isn't boolType", nil)
 	}
 
 	// packed list no need to write tag
@@ -229,11 +246,12 @@ func (self *visitorUserNode) OnString(v string) error {
 		self.inskip = false
 		return nil
 	}
-	var err error
-	top := self.stk[self.sp].state.fieldDesc
-	fieldDesc := self.globalFieldDesc
-	if fieldDesc == nil && top != nil && top.Type().IsList() {
-		fieldDesc = top
+	fieldDesc, err := self.scalarField()
+	if err != nil {
+		return err
+	}
+	if fieldDesc.Kind() != proto.BytesKind && fieldDesc.Kind() != proto.StringKind {
+		return newError(meta.ErrDismatchType, "param isn't stringType", nil)
 	}
 
 	if err = self.p.AppendTagByKind(fieldDesc.Number(), fieldDesc.Kind()); err != nil {
@@ -268,12 +286,9 @@ func (self *visitorUserNode) OnInt64(v int64, n json.Number) error {
 		self.inskip = false
 		return nil
 	}
-	var err error
-	top := self.stk[self.sp]
-	fieldDesc := self.globalFieldDesc
-	// case PackedList(List<int32/int64/...), get fieldDescriptor from Stack
-	if self.globalFieldDesc == nil && top.typ == arrStkType {
-		fieldDesc = top.state.fieldDesc
+	fieldDesc, err := self.scalarField()
+	if err != nil {
+		return err
 	}
 
 	// packed list no need to write tag
@@ -361,12 +376,9 @@ func (self *visitorUserNode) OnFloat64(v float64, n json.Number) error {
 		self.inskip = false
 		return nil
 	}
-	var err error
-	top := self.stk[self.sp]
-	fieldDesc := self.globalFieldDesc
-
-	if self.globalFieldDesc == nil && top.typ == arrStkType {
-		fieldDesc = top.state.fieldDesc
+	fieldDesc, err := self.scalarField()
+	if err != nil {
+		return err
 	}
 
 	// packed list no need to write tag
@@ -440,6 +452,7 @@ func (self *visitorUserNode) OnObjectBegin(capacity int) error {
 		fieldDesc = top.state.fieldDesc
 	}
 
+	inArr := self.globalFieldDesc == nil && top.typ == arrStkType
 	if fieldDesc != nil {
 		if fieldDesc.Type().IsMap() {
 			// case Map, push MapDesc
@@ -447,6 +460,10 @@ func (self *visitorUserNode) OnObjectBegin(capacity int) error {
 				return err
 			}
 		} else {
+			// an object is the value of a message field, or an element of a repeated message field
+			if fieldDesc.Kind() != proto.MessageKind || fieldDesc.Type().IsList() != inArr {
+				return newError(meta.ErrDismatchType, fmt.Sprintf("field '%s' can't take an object value", fieldDesc.Name()), nil)
+			}
 			// case Message, encode Tag、PrefixLen, push MessageDesc、PrefixLen
 			if err = self.p.AppendTag(fieldDesc.Number(), proto.BytesType); err != nil {
 				return meta.NewError(meta.ErrWrite, "append prefix tag failed", nil)
@@ -606,7 +623,14 @@ func (self *visitorUserNode) OnArrayBegin(capacity int) error {
 	}
 	var err error
 	curNodeLenPos := -1
+	if self.globalFieldDesc == nil {
+		// an array can only be the value of a member (not the root value, not an element of an array)
+		return newError(meta.ErrDismatchType, "unexpected array value", nil)
+	}
 	if self.globalFieldDesc != nil {
+		if !self.globalFieldDesc.Type().IsList() {
+			return newError(meta.ErrDismatchType, fmt.Sprintf("field '%s' can't take an array value", self.globalFieldDesc.Name()), nil)
+		}
 		// PackedList: encode Tag、Len
 		if self.globalFieldDesc.Type().IsPacked() {
 			if err = self.p.AppendTag(self.globalFieldDesc.Number(), proto.BytesType); err != nil {
